@@ -1,0 +1,18 @@
+//!
+//! Verification hooks (feature `verif-hooks`, off by default). Add-only public wrappers around
+//! crate-private items so that out-of-tree proof harnesses can reach them. Not part of the API.
+//!
+
+/// Wraps the crate-private rotated search used by `get_latest_volume`.
+#[cfg(feature = "aws")]
+pub async fn search<F, V>(
+    element_count: usize,
+    target: V,
+    f: impl FnMut(usize) -> F,
+) -> crate::result::Result<Option<usize>>
+where
+    F: std::future::Future<Output = crate::result::Result<Option<V>>>,
+    V: PartialOrd + Clone,
+{
+    crate::aws::realtime::search_hook(element_count, target, f).await
+}
